@@ -133,8 +133,9 @@ def cases(rng, tier):
     out = []
     for t, fam in texts:
         inc = None if rng.random() < 0.7 else "dir/shader.wgsl"
+        derive = rng.choice([{"encase": True}, {}, {"bm_host": True}, {"serde": True}, {"bm_vertex": True, "mv": "Glam"}])
         for v in (False, True):
-            out.append({"wgsl": t, "family": fam, "opts": {"validate": v, "encase": True}, "include": inc})
+            out.append({"wgsl": t, "family": fam, "opts": dict(derive, validate=v), "include": inc})
     # the validator's verdict depends on the capability set: the same text validated under alternating sets, in one process
     # (every call must be judged by ITS capabilities, whatever earlier calls on the same text returned)
     for t in CAPS_SOURCES:
